@@ -9,7 +9,7 @@ s=open(f).read()
 n=len(re.findall(old,s))
 if n!=1:
     print(f"mutation pattern matched {n} times",file=sys.stderr); sys.exit(3)
-open(f,'w').write(re.sub(old,new.replace('\\','\\\\'),s,count=1))
+open(f,'w').write(re.sub(old,lambda m:new,s,count=1))
 PY
 [ $? -eq 0 ] || exit 3
 (cd /repo && git diff --stat | tail -1)
